@@ -1447,3 +1447,9 @@ package server
 //@     ghost fromG := $result0
 //@   at call GetManyRelatedEntitiesAtTime#1 before
 //@     assert [C03:the-resolved-start-points-are-scanned-with-the-requested-limit] $arg1 == fromG && $arg2 == limit && $arg3 == mergePartials
+
+//@ unit (*Store).GetManyRelatedEntities
+//@   prop C03
+//@   requires s != nil
+//@   at call GetManyRelatedEntitiesBatch#1 before
+//@     assert [C03:an-unpaged-query-asks-for-everything-about-the-requested-start-points] $arg1 == startPoints && $arg2 == predicate && $arg3 == inverse && $arg4 == datasets && $arg5 == 0 && $arg6 == mergePartials
